@@ -85,8 +85,9 @@ def _judge_trace(ctx, d, trace_name, workers):
     write_cfg(Path(d) / "NetMiscTrace_run.cfg", "TSpec", {"Stride": workers}, invariants=["Judge"])
     r = ctx.tlc(d, "NetMiscTrace", "NetMiscTrace_run.cfg", workers=workers, label="trace:random executions",
                 timeout=1800, heap="6g")
-    if r.distinct != n + 1:
-        raise CheckerError("NetMiscTrace visited %d of %d lines" % (r.distinct, n + 1))
+    # + workers: the line-less initial states of the chains (see TInit in NetMiscTrace.tla).
+    if r.distinct != n + 1 + min(workers, n + 1):
+        raise CheckerError("NetMiscTrace visited %d of %d lines" % (r.distinct - min(workers, n + 1), n + 1))
     verdicts = {}
     if vf.exists():
         for row in vf.read_text().splitlines():
